@@ -211,8 +211,15 @@ func (s *Sim) CheckSolvency(rt *rapid.T) {
 		perUpdate.Quo(perUpdate, new(big.Int).Exp(big.NewInt(10), big.NewInt(27), nil))
 	}
 	perUpdate.Add(perUpdate, big.NewInt(4))
+	// every swap step rounds the next sqrt price by up to 1e-36 in the pool's favour; at sqrt price s and liquidity L
+	// that is worth L*1e-36/s^2 of token0 (and L*1e-36 of token1, below one unit)
+	stepDust := new(big.Rat).Mul(s.InvSqrt2, new(big.Rat).SetFrac(new(big.Int).Mul(s.MaxLiq, big.NewInt(int64(2*(s.MaxTicks+2)))), bigDecOne36))
+	stepDust0 := new(big.Int).Quo(stepDust.Num(), stepDust.Denom())
 	for _, d := range []string{D0, D1} {
 		bound := new(big.Int).Add(new(big.Int).Mul(perUpdate, big.NewInt(ops)), new(big.Int).Quo(s.Vol[d], big.NewInt(1_000_000_000)))
+		if d == D0 {
+			bound.Add(bound, stepDust0)
+		}
 		for what, addr := range map[string]sdk.AccAddress{"pool": pool.GetAddress(), "spread-reward": pool.GetSpreadRewardsAddress()} {
 			if r := b.Bal(addr, d).Amount.BigInt(); r.Cmp(bound) > 0 {
 				rt.Fatalf("after everybody withdrew and claimed, the %s account retains %s%s, more than rounding dust (bound %s for %d operations, volume %s) [history %v]", what, r, d, bound, ops, s.Vol[d], s.Hist)
@@ -220,6 +227,8 @@ func (s *Sim) CheckSolvency(rt *rapid.T) {
 		}
 	}
 }
+
+var bigDecOne36 = new(big.Int).Exp(big.NewInt(10), big.NewInt(36), nil)
 
 // SortedKnown returns the ids the harness believes alive.
 func (s *Sim) SortedKnown() []uint64 {
